@@ -19,6 +19,7 @@ type LedgerGenOpts struct {
 	MultiOperatorMsgs    bool
 	Replays              bool
 	BigAmounts           bool
+	DirectSlashes        bool // direct calls of the slash entry point with random parameters
 }
 
 var defaultLedgerWeights = map[string]int{
